@@ -354,7 +354,48 @@ def run(F, rep, tier):
     fcalls = [c for c in eb.calls_in(er) if c.target == fz]
     evs = [c for c in eb.calls_in(er) if c.target == evaluate]
     fenv = [(bb, s) for bb, s in eb.aggregates(er) if s[2][2] == 'core::FreezeEnv']
-    if fcalls and evs and fenv:
+    ctor_call = None
+    if fcalls and evs and not fenv:
+        # FreezeEnv built by a constructor function: read the literal inside it and map its parameters back to the call site
+        for c in eb.calls_in(er):
+            if F.has_fn(c.target) and F.fns[c.target].get('output') == 'core::FreezeEnv':
+                cb_ = F.body(c.target)
+                lit = [(bb, s_) for bb, s_ in cb_.aggregates() if s_[2][2] == 'core::FreezeEnv']
+                if lit:
+                    ctor_call = (c, cb_, lit[0][1])
+    if fcalls and evs and ctor_call:
+        c, cb_, s_ = ctor_call
+        adt = F.adts.get('core::FreezeEnv')
+        names = [f['name'] for f in adt['variants'][0]['fields']]
+        ops = dict(zip(names, s_[2][5]))
+        pnames = [v for v in (F.fns[c.target].get('param_names') or [])]
+
+        def param_index(op):
+            og = origins(cb_, op, passthru=('clone',))
+            idx = set()
+            for o in og:
+                if o[0] == 'param':
+                    # parameters are locals 1..n in order
+                    for li, nm in enumerate(cb_.raw.get('vars', {}).values() if isinstance(cb_.raw.get('vars'), dict) else []):
+                        pass
+                    idx.add(o[1])
+            return og, idx
+        w_og, w_par = param_index(ops.get('warn'))
+        e_og, e_par = param_index(ops.get('env'))
+        bnd = origins(cb_, ops.get('bound')) if ops.get('bound') else set()
+        okb = bool(bnd) and all(o[0] == 'call' and o[1].endswith('::new') for o in bnd)
+        # at the call site: which argument is the bool false, which is evaluate's env
+        args_og = [origins(eb, a_) for a_ in c.args]
+        env_args = [i for i, og in enumerate(args_og) if og and all(o[0] == 'param' and o[1] == 'env' for o in og)]
+        false_args = [i for i, a_ in enumerate(c.args) if a_[0] == 'k' and a_[2] == 'false']
+        oke = bool(e_par) and all(o[0] == 'param' for o in e_og) and bool(env_args)
+        okw = (bool(w_par) and all(o[0] == 'param' for o in w_og) and bool(false_args)) or any(o[0] == 'const' and o[1] == 'false' for o in w_og)
+        ev_env = all(any(r[0] == 'param' and r[2] == 'env' for r in eb.roots(c2.args[0])) for c2 in evs)
+        if okw and oke and okb and ev_env and any(eb.dominates(f.bb, c2.bb) for f in fcalls for c2 in evs):
+            rep.ok('R17.6', 'Expr::Freeze', 'FreezeEnv built by %s(env, false): bound new, env clone(env), warn false; evaluate(env, frozen)' % c.target.rsplit('::', 1)[-1])
+        else:
+            rep.viol('R17.6', evaluate + '|Freeze', 'Expr::Freeze no longer freezes against the current environment with warn = false and an empty bound set (constructor %s: warn %s, env %s, bound %s)' % (c.target, okw, oke, okb), fcalls[0].loc())
+    elif fcalls and evs and fenv:
         adt = F.adts.get('core::FreezeEnv')
         names = [f['name'] for f in adt['variants'][0]['fields']]
         s = fenv[0][1]
